@@ -71,7 +71,15 @@ const (
 	PoisonFunc    = 2 // a func behind the `any` field
 	PoisonNaN     = 3 // NaN in the float field
 	PoisonMarshal = 4 // a value whose MarshalJSON fails
+	// string fields holding bytes that are not valid UTF-8: the JSON encoder the vaults use refuses them
+	PoisonUTF8High      = 5 // "\xff\xfe" inside the text
+	PoisonUTF8Cont      = 6 // a lone continuation byte
+	PoisonUTF8Truncated = 7 // a truncated multi-byte sequence at the end
+	PoisonLast          = PoisonUTF8Truncated
 )
+
+// IsUTF8Poison says whether the poison kind is one of the invalid-UTF-8 kinds.
+func IsUTF8Poison(kind int) bool { return kind >= PoisonUTF8High && kind <= PoisonUTF8Truncated }
 
 // ErrLink is one element of a plugins.Error chain (outermost first).
 type ErrLink struct {
@@ -224,6 +232,12 @@ func BuildReq(a ActionSpec) any {
 			r.Ratio = math.NaN()
 		case PoisonMarshal:
 			r.Bad = &FailingMarshaler{Why: "poison"}
+		case PoisonUTF8High:
+			r.Text = "na\xff\xfeve " + r.Text
+		case PoisonUTF8Cont:
+			r.Text = r.Text + "\x80tail"
+		case PoisonUTF8Truncated:
+			r.Text = r.Text + "\xe4\xb8" // the first two bytes of U+4E16
 		}
 		return r
 	}
